@@ -1,0 +1,108 @@
+//go:build verif
+
+// Contracts for the verification machinery in /verif (comment-only; excluded from normal builds).
+// Property C21 (partial). Mode int: mathematical integers, every +,-,* carries a no-overflow obligation.
+
+package protocol
+
+// ls_ok(t, c): t is the line-start table of content c: starts with 0, strictly increasing, every later entry
+// follows a newline, and no newline lies strictly inside a line (so entry i is where line i begins).
+//@ spec ls_ok(t []int, c []byte) bool :=
+//@      len(t) >= 1 && t[0] == 0 && len(t) <= len(c) + 1 &&
+//@      (forall i int :: 0 <= i && i < len(t) ==> 0 <= t[i] && t[i] <= len(c)) &&
+//@      (forall i int :: 1 <= i && i < len(t) ==> c[t[i]-1] == '\n') &&
+//@      (forall i int :: 0 <= i && i+1 < len(t) ==> t[i] < t[i+1]) &&
+//@      (forall i int, j int :: 0 <= i && i+1 < len(t) && t[i] <= j && j < t[i+1]-1 ==> c[j] != '\n') &&
+//@      (forall j int :: t[len(t)-1] <= j && j < len(c) ==> c[j] != '\n')
+
+// once_done[m]: the lazily computed line table of Mapper m has been built (sync.Once fired).
+//@ ghost once_done (Array Int Bool) allocinit false
+
+// ---- assumed: unicode/utf8.DecodeRune as documented (RFC 3629): ASCII decodes to itself in one byte, anything
+// else yields a rune >= 0x80 (RuneError for invalid input) of 1..4 bytes whose continuation bytes are >= 0x80,
+// and only 4-byte sequences yield runes >= 0x10000.
+//@ extern utf8.DecodeRune
+//@   mode int
+//@   results r, size
+//@   ensures len(p) == 0 ==> size == 0 && r == 0xFFFD
+//@   ensures len(p) > 0 ==> 1 <= size && size <= 4 && size <= len(p)
+//@   ensures len(p) > 0 && p[0] < 0x80 ==> size == 1 && int(r) == int(p[0])
+//@   ensures len(p) > 0 && p[0] >= 0x80 ==> r >= 0x80 && r <= 0x10FFFF
+//@   ensures r >= 0x10000 ==> size == 4
+//@   ensures forall k int :: 1 <= k && k < size ==> p[k] >= 0x80
+//@   pure
+//@   trusted
+//@ extern bytes.Count
+//@   mode int
+//@   ensures 0 <= result && result <= len(s)
+//@   pure
+//@   trusted
+
+// initLines builds the table once per Mapper (sync.Once); the closure that does the work is verified below.
+//@ func (*Mapper).initLines
+//@   mode int
+//@   requires m != nil
+//@   ensures once_done[m]
+//@   ensures !old(once_done[m]) ==> ls_ok(m.lineStart, m.Content)
+//@   ensures old(once_done[m]) ==> m.lineStart == old(m.lineStart)
+//@   ensures m.Content == old(m.Content)
+//@   sets once_done = store(old(once_done), m, true)
+//@   modifies m.lineStart, m.nonASCII
+//@   trusted
+
+//@ func (*Mapper).initLines$1
+//@   mode int
+//@   requires m != nil && *m != nil
+//@   loop 0 invariant -1 <= rangeindex && rangeindex < len(m.Content) && m.Content == old(m.Content)
+//@   loop 0 invariant isfresh(m.lineStart) && visible_unchanged(m.lineStart)
+//@   loop 0 invariant len(m.lineStart) >= 1 && m.lineStart[0] == 0 && len(m.lineStart) <= rangeindex + 2
+//@   loop 0 invariant forall i int :: 0 <= i && i < len(m.lineStart) ==> 0 <= m.lineStart[i] && m.lineStart[i] <= rangeindex+1
+//@   loop 0 invariant forall i int :: 1 <= i && i < len(m.lineStart) ==> m.Content[m.lineStart[i]-1] == '\n'
+//@   loop 0 invariant forall i int :: 0 <= i && i+1 < len(m.lineStart) ==> m.lineStart[i] < m.lineStart[i+1]
+//@   loop 0 invariant forall i int, j int :: 0 <= i && i+1 < len(m.lineStart) && m.lineStart[i] <= j && j < m.lineStart[i+1]-1 ==> m.Content[j] != '\n'
+//@   loop 0 invariant forall j int :: m.lineStart[len(m.lineStart)-1] <= j && j <= rangeindex ==> m.Content[j] != '\n'
+//@   ensures[table] ls_ok(m.lineStart, m.Content)
+//@   modifies m.lineStart, m.nonASCII
+//@   safe
+//@   property C21
+
+// PositionOffset: for a Mapper whose table (if already built) belongs to its current content, a successful
+// result is the start of the addressed line plus the bytes of the runes the UTF-16 column skips: it lies
+// inside the content, on the same line, and for an all-ASCII prefix it is exactly line start + column.
+//@ func (*Mapper).PositionOffset
+//@   mode int
+//@   results off, err
+//@   requires m != nil
+//@   requires[rep] once_done[m] ==> ls_ok(m.lineStart, m.Content)
+//@   loop 0 invariant ref(content) == ref(m.Content) && off(content) == off(m.Content) + offset + col8 && len(content) == len(m.Content) - offset - col8
+//@   loop 0 invariant 0 <= col8 && offset + col8 <= len(m.Content) && 0 <= col16 && col16 <= int(p.Character)
+//@   loop 0 invariant forall j int :: offset <= j && j < offset + col8 ==> m.Content[j] != '\n'
+//@   loop 0 invariant col8 <= 4*col16
+//@   loop 0 invariant (forall j int :: offset <= j && j < offset + int(p.Character) && j < len(m.Content) ==> m.Content[j] < 0x80) ==> col8 == col16
+//@   ensures[fail]     err != nil ==> off == 0
+//@   ensures[line]     err == nil ==> int(p.Line) <= len(m.lineStart)
+//@   ensures[eof]      err == nil && int(p.Line) == len(m.lineStart) ==> off == len(m.Content) && p.Character == 0
+//@   ensures[range]    err == nil && int(p.Line) < len(m.lineStart) ==> m.lineStart[int(p.Line)] <= off && off <= len(m.Content)
+//@   ensures[sameline] err == nil && int(p.Line) < len(m.lineStart) ==> (forall j int :: m.lineStart[int(p.Line)] <= j && j < off ==> m.Content[j] != '\n')
+//@   ensures[col0]     err == nil && int(p.Line) < len(m.lineStart) && p.Character == 0 ==> off == m.lineStart[int(p.Line)]
+//@   ensures[ascii]    err == nil && int(p.Line) < len(m.lineStart) && (forall j int :: m.lineStart[int(p.Line)] <= j && j < m.lineStart[int(p.Line)] + int(p.Character) && j < len(m.Content) ==> m.Content[j] < 0x80) ==> off == m.lineStart[int(p.Line)] + int(p.Character)
+//@   ensures[rep]      once_done[m] && ls_ok(m.lineStart, m.Content) && m.Content == old(m.Content)
+//@   modifies m.lineStart, m.nonASCII, once_done
+//@   safe
+//@   property C21
+
+//@ func (*Mapper).RangeOffsets
+//@   mode int
+//@   results start, end, err
+//@   requires m != nil
+//@   requires[rep] once_done[m] ==> ls_ok(m.lineStart, m.Content)
+//@   ensures[range]   err == nil ==> 0 <= start && start <= len(m.Content) && 0 <= end && end <= len(m.Content)
+//@   ensures[content] m.Content == old(m.Content)
+//@   modifies m.lineStart, m.nonASCII, once_done
+//@   safe
+//@   property C21
+
+// URI to file name conversion is outside this property (it panics on a malformed file URI)
+//@ func (DocumentURI).Path
+//@   pure
+//@   trusted
